@@ -117,7 +117,7 @@ def run_one(it):
                         for j in range(len(chunk)):
                             pos = sent_count["S"]
                             sent_count["S"] += 1
-                            if it["corrupt"] and pos == it["_corrupt_abs"]:
+                            if it["corrupt"] and pos == it.get("_corrupt_abs", -1):
                                 chunk[j] = (chunk[j] + it["delta"]) % 256
                     dst.feed(bytes(chunk))
                     moved = True
@@ -136,19 +136,19 @@ def run_one(it):
 
     # absolute offset (in the sender->receiver byte stream) of the byte to corrupt: ENQ bytes count too
     if it["corrupt"] and not it.get("seq"):
-        from secsgem.secsi.header import SecsIHeader
-        from secsgem.secsi.message import SecsIMessage
-        h = it["h"]
-        hdr = SecsIHeader(int.from_bytes(bytes(h["sys"]), "big"), h["dev"], h["s"], h["f"], 0, h["r"], h["w"], True)
-        blocks = [bytes(b.encode()) for b in SecsIMessage(hdr, pattern(it["n"])).blocks]
+        # reference block layout (E4): data blocks of 244 bytes; a block is length byte + 10 header bytes + data + 2 checksum bytes
+        n = it["n"]
+        dlens = [244] * (n // 244) + ([n % 244] if n % 244 or n == 0 else [])
         off = 0
-        for bi, b in enumerate(blocks, start=1):
+        it["_corrupt_abs"] = -1
+        for bi, dl in enumerate(dlens, start=1):
             off += 1  # ENQ
             if bi == it["corrupt"]:
                 it["_corrupt_abs"] = off + it["pos"]
-                rec["length_increased"] = it["pos"] == 0 and (b[0] + it["delta"]) % 256 > b[0]
+                lenbyte = 10 + dl
+                rec["length_increased"] = it["pos"] == 0 and (lenbyte + it["delta"]) % 256 > lenbyte
                 break
-            off += len(b)
+            off += 13 + dl
     s = simrt.run(main, seed=it["seed"], policy=it["policy"], switch_prob=0.3, max_vtime=1e6, wall_timeout=120)
     for r_ in recs:
         r_["outcome"] = s.outcome
